@@ -13,8 +13,10 @@
 #include <unordered_set>
 
 #include "cctz/time_zone.h"
+#include "loadcommon.h"
 #include "oracle.h"
 #include "sup.h"
+#include "tzifgen.h"
 #include "zsrc.h"
 
 extern "C" {
@@ -22,10 +24,6 @@ extern void (*cctz_verif_hint_hook)(const void* zone, int dir, std::size_t hint,
 }
 
 using orc::Civ;
-using orc::i128;
-typedef cctz::time_point<cctz::seconds> tp_t;
-static inline tp_t mk(int64_t t) { return tp_t(cctz::seconds(t)); }
-static inline int64_t un(tp_t tp) { return tp.time_since_epoch().count(); }
 
 struct HintObs {
   long stores[2] = {0, 0}, hits[2] = {0, 0};
@@ -48,11 +46,6 @@ static void hint_hook(const void* zone, int dir, std::size_t hint, int hit) {
   g_h.last_hit[dir] = hit;
 }
 
-static std::string cs_str(const cctz::civil_second& c) {
-  char b[96];
-  snprintf(b, sizeof b, "%" PRId64 "-%02d-%02dT%02d:%02d:%02d", (int64_t)c.year(), c.month(), c.day(), c.hour(), c.minute(), c.second());
-  return b;
-}
 static std::string abs_str(const cctz::time_zone& tz, int64_t t) {
   auto al = tz.lookup(mk(t));
   std::ostringstream o;
@@ -255,6 +248,74 @@ struct Mon {
     }
   }
 
+  // Hostile variants of this zone (structure-aware mutants, as in C12): whatever loads must answer independently of
+  // the order in which it is asked. Two copies are driven by independent random histories.
+  void hostile_variants() {
+    const std::string saved = bytes;
+    cctz::time_zone sa = A, sb = B;
+    int nmut = thorough ? 24 : 8;
+    for (int k = 0; k < nmut; ++k) {
+      tzg::Spec sp;
+      if (!tzg::from_bytes(saved, &sp)) break;
+      std::string label = tzg::mutate_spec(&sp, rng);
+      std::string mb = tzg::emit(sp);
+      if (rng.chance(0.3)) label += "|" + tzg::mutate_bytes(&mb, saved, rng);
+      if (mb.size() > 65536 || tzg::declared_alloc(mb) > (64LL << 20)) continue;
+      if (input_class(mb) == "H-ancient-seam") continue;  // known finding D8, kept under observation by C12
+      bytes = mb;
+      ctx.set_case("zone=%s path=%s op=hostile-variant mutation=%s", zid().c_str(), ze.path.c_str(), label.c_str());
+      cctz::time_zone a, b;
+      bool oa = load_copy("hA" + std::to_string(serial), &a), ob = load_copy("hB" + std::to_string(serial), &b);
+      ++serial;
+      ctx.stat("C14.hostile_variants_tried");
+      if (oa != ob) ctx.viol("C14", "history-dependent:hostile-load-result", "zone=" + zid() + " mutation=" + label);
+      if (!oa || !ob) continue;
+      ctx.stat("C14.hostile_variants_loaded");
+      std::vector<int64_t> pool = {0, 1700000000, 4102444800LL, -3000000000LL, 15000000000LL, (int64_t)1 << 45};
+      orc::TZif tzf;
+      if (orc::parse_tzif(mb, &tzf).empty())
+        for (size_t i = 0; i < tzf.times.size(); i += std::max<size_t>(1, tzf.times.size() / 12))
+          if (tzf.times[i] > INT64_MIN + 100000 && tzf.times[i] < INT64_MAX - 100000) pool.push_back(tzf.times[i]);
+      // the generated (footer) region as well: a few instants per year for 6 years after the last recorded transition
+      int64_t lastt = tzf.times.empty() ? 0 : tzf.times.back();
+      if (lastt > -((int64_t)1 << 58) && lastt < ((int64_t)1 << 58))
+        for (int y = 0; y < 6; ++y)
+          for (int q = 0; q < 6; ++q) pool.push_back(lastt + y * 31556952LL + q * 5259492LL);
+      {
+        // where the footer's own rule transitions fall (as far as the oracle can read the variant)
+        orc::Zone hz;
+        if (hz.init(mb) && hz.has_px && hz.px.has_dst && !hz.px.dst_abbr.empty() && !hz.px_allyear) {
+          i128 y0 = orc::civ_from_secs(lastt).y;
+          std::vector<int64_t> rulep;
+          for (i128 y = y0; y <= y0 + 3; ++y)
+            for (i128 b2 : {hz.start_of(y), hz.end_of(y)})
+              for (int dd : {-3600, -1, 0, 1800, 3600, 7200})
+                if (orc::fits64(b2 + dd)) rulep.push_back((int64_t)(b2 + dd));
+          // weight them: the interesting hidden states are next to these instants
+          for (int rep2 = 0; rep2 < 3; ++rep2) pool.insert(pool.end(), rulep.begin(), rulep.end());
+        }
+      }
+      sup::Rng ra(rng.next(), 1), rb(rng.next(), 2), rq(rng.next(), 3);
+      for (long i = 0; i < 400; ++i) {
+        int ha = (int)ra.range(0, 3), hb = (int)rb.range(0, 3);
+        for (int j = 0; j < ha; ++j) random_call(a, ra, pool);
+        for (int j = 0; j < hb; ++j) random_call(b, rb, pool);
+        uint64_t qs = rq.next();
+        sup::Rng q1(qs, 9), q2(qs, 9);
+        std::string x = random_call(a, q1, pool), y2 = random_call(b, q2, pool);
+        ctx.stat("C14.evaluations");
+        ctx.stat("C14.hostile_history_steps");
+        if (x != y2) {
+          ctx.viol("C14", "history-dependent:hostile-variant", "zone=" + zid() + " mutation=" + label + " step " + std::to_string(i) + ": '" + x + "' vs '" + y2 + "'");
+          break;
+        }
+      }
+    }
+    bytes = saved;
+    A = sa;
+    B = sb;
+  }
+
   void cache_behaviour() {
     std::string base = "V/H14c/" + ze.cls + "/" + ze.name + "/";
     zsrc::put(base + "ok", bytes);
@@ -313,6 +374,7 @@ struct Mon {
     ctx.stat("C14.hint_stores_seen_by_hook", g_h.stores[0] + g_h.stores[1] - s0);
     ctx.stat("C14.hint_hits_seen_by_hook", g_h.hits[0] + g_h.hits[1] - h0);
     random_histories();
+    hostile_variants();
     cache_behaviour();
     ctx.sample("C14", "zone=" + zid() + ": " + std::to_string(g_h.stored_states.size() - st0) + " distinct hint states stored, " +
                           std::to_string(g_h.hit_states.size() - ht0) + " answered from the hint; e.g. after lookup(t) on copy A, lookup(t+1) hit the hint and equalled copy B's answer", 3);
